@@ -5,7 +5,7 @@
    from C03_go_key_equality_is_symmetric on: Go's "==" as modelled (Value.keq) satisfies the symmetry and
    transitivity hypotheses, so the history theorems hold for the pool's keys without hypotheses on keq; the
    Catalog operations of the pool machine are the association-list functions; Sort/Reverse/Shuffle keep the mapping. *)
-From Verif Require Import Base Sorter SorterProofs Value Seq Coll Pool PoolFrame AssocProofs SorterProofs2 AssocProofs2 CatalogImpl CatalogProofs.
+From Verif Require Import Base Sorter SorterProofs Value Seq Coll Pool PoolFrame AssocProofs SorterProofs2 AssocProofs2 ReorderProofs CatalogImpl CatalogProofs.
 Local Open Scope nat_scope.
 
 Theorem C03_keys_stay_distinct :
@@ -506,6 +506,27 @@ Theorem C03_impl_from_map :
     vabs zero h' c' = a_set_all keq [] m /\ vsame zero h h'.
 Proof. exact val_from_map_refines. Qed.
 
+(* MakeFromMap: the Go map's iteration order is an oracle (Pool.reorder); whatever it is, the pool's Catalog
+   holds exactly the associations of the Go map (C14_from_map_exact is the same lemma), and the code-shaped
+   MakeFromMap fed with the entries in that order lists exactly them *)
+Theorem C03_from_map_exact :
+  forall (zero : val) (p : pool) (src : nat) (okeys : list val) (m m' : list (val * val)),
+  get p src = OGoMap m -> wfm val val keq m -> reorder m okeys = Some m' ->
+  step zero p (FromMap CCatalog src okeys) = (p ++ [OCat m'], RNew) /\
+  step zero p (FromMap CMap src okeys) = (p ++ [OMap m'], RNew) /\
+  (forall x : val, a_get keq m' x = a_get keq m x) /\
+  wfm val val keq m' /\ length m' = length m /\
+  (exists m'' : list (val * val), Permutation.Permutation m m'' /\ Forall2 same_assoc m'' m') /\
+  (spelled_as_stored m okeys -> Permutation.Permutation m m').
+Proof. exact from_map_exact. Qed.
+
+Theorem C03_impl_from_map_in_oracle_order :
+  forall (zero : val) (h : heap val val) (okeys : list val) (m m' : list (val * val)),
+  wfm val val keq m -> reorder m okeys = Some m' ->
+  exists (h' : heap val val) (c' : cat val),
+    c_from_map keq h m' = Ret (h', c') /\ vinv zero h' c' /\ vabs zero h' c' = m' /\ vsame zero h h'.
+Proof. exact from_map_oracle. Qed.
+
 Example C03_impl_class_functions_example :
   (exists h' c', c_merge keq ex6_heap ex6_cat ex6_cat = Ret (h', c') /\ vabs (iv 0) h' c' = [(ka, iv 1); (kc, iv 3); (kb, iv 5)] /\
                  vabs (iv 0) h' ex6_cat = [(ka, iv 1); (kc, iv 3); (kb, iv 5)]) /\
@@ -552,3 +573,5 @@ Print Assumptions C03_impl_set_value.
 Print Assumptions C03_impl_merge.
 Print Assumptions C03_impl_extract.
 Print Assumptions C03_impl_from_map.
+Print Assumptions C03_from_map_exact.
+Print Assumptions C03_impl_from_map_in_oracle_order.
